@@ -87,6 +87,9 @@ func filters() []qspec {
 		{name: "row:nick=empty", f: sqlgen.Filter{"nick": ""}, row: true},
 		{name: "city_id=7", f: sqlgen.Filter{"city_id": int64(7)}},
 		{name: "city=sf,id=1", f: sqlgen.Filter{"city": "sf", "id": int64(1)}},
+		{name: "city=empty", f: sqlgen.Filter{"city": ""}},
+		{name: "score=int32(0)", f: sqlgen.Filter{"score": int32(0)}},
+		{name: "city_id=0", f: sqlgen.Filter{"city_id": int64(0)}},
 		{name: "others:city=sf", table: "others", f: sqlgen.Filter{"city": "sf"}},
 		{name: "others:id=int(1)", table: "others", f: sqlgen.Filter{"id": 1}},
 	}
@@ -109,6 +112,11 @@ var contents = [][][]driver.Value{
 		{int64(1), nil, "la", int64(5), "x", nil, nil, int64(7)},
 	},
 	{}, // empty table
+	{ // NULL in columns whose Go field is not a pointer (decoded as the zero value; no SQL comparison matches them)
+		{int64(1), int64(30), "sf", int64(5), "x", "n", []byte("b"), int64(7)},
+		{int64(2), nil, nil, nil, nil, nil, nil, nil},
+		{int64(3), int64(30), nil, int64(0), "", nil, nil, int64(0)},
+	},
 }
 
 type env struct {
@@ -384,5 +392,5 @@ func run(rp *explore.Report, tier string) {
 
 func init() {
 	reg.Register(&reg.Harness{Property: "C10", Name: "c10/sqlbatch", Level: "model_checking", Bounds: [2]int{1, 2}, Run: run, Item: parseItem,
-		Rule: fmt.Sprintf("3 table contents (duplicates + NULLs, single row, empty) x all pairs and a grid of triples of %d queries", len(filters())) + " (Query/QueryRow; filters on id, nullable column, string column, int32 column, implicitnull column (zero value = NULL), []byte column (nil), two columns, empty, nil; each value in the Go representations int / int64 / int32 / *int64 / named string / nil / typed nil pointer; a second table) run concurrently under one batch.WithBatching context (plus a grid of pairs whose SELECT stays in flight for a step, explored at bound 2 incl. an early wait-interval timer) over the real sqlgen.DB and an in-memory SQL driver with three-valued NULL logic, all schedules within the deviation bound; plus, for every filter, a query inside a transaction holding an uncommitted row next to a query outside it (the in-memory driver isolates reads); oracle: per query, rows (as a key multiset) and error kind equal the same query run alone without batching. non-trivial = executions in which the driver saw fewer statements than queries"})
+		Rule: fmt.Sprintf("4 table contents (duplicates + NULLs, single row, empty, NULL in columns of non-pointer Go type) x all pairs and a grid of triples of %d queries", len(filters())) + " (Query/QueryRow; filters on id, nullable column, string column, int32 column, implicitnull column (zero value = NULL), the zero value of a column holding NULLs, []byte column (nil), two columns, empty, nil; each value in the Go representations int / int64 / int32 / *int64 / named string / nil / typed nil pointer; a second table) run concurrently under one batch.WithBatching context (plus a grid of pairs whose SELECT stays in flight for a step, explored at bound 2 incl. an early wait-interval timer) over the real sqlgen.DB and an in-memory SQL driver with three-valued NULL logic, all schedules within the deviation bound; plus, for every filter, a query inside a transaction holding an uncommitted row next to a query outside it (the in-memory driver isolates reads); oracle: per query, rows (as a key multiset) and error kind equal the same query run alone without batching. non-trivial = executions in which the driver saw fewer statements than queries"})
 }
